@@ -111,6 +111,14 @@ _hyb = {}
 
 
 def apply_deps(classes, deps):
+    # process history: the classes have been through a sort (a build) BEFORE their declarations are completed below;
+    # whatever that first sort remembers about a class must not decide the later ones
+    try:
+        from xobjects.context import sort_classes
+
+        sort_classes(list(classes))
+    except Exception:
+        pass
     for i, j in deps:
         if (i, j) not in _declared:
             # a plain struct / union names a hybrid class as such (class N1(xo.HybridClass)), not its _XoStruct
